@@ -1,0 +1,10 @@
+//go:build verif
+
+package kafka
+
+// Add-only export file for the C02 checks of the verification harness in /verif (build tag
+// "verif").  Nothing here is compiled into normal builds.
+
+// VerifC02E2EQueueLen reports how many entries (messages or errors, of any generation) sit
+// in the Reader's internal queue.
+func (r *Reader) VerifC02E2EQueueLen() int { return len(r.msgs) }
